@@ -175,9 +175,9 @@ def make_reader(pexpect, which, sim, use_poll=False, encoding=None):
     return c, Patched(pexpect, sim, FAKE_FD)
 
 
-def run_calls(pexpect, which, sim, calls, use_poll=False):
+def run_calls(pexpect, which, sim, calls, use_poll=False, encoding=None):
     """calls: [(size, t0)]; returns observations [[res], [buf, open, alive], sched_left]"""
-    c, ctxm = make_reader(pexpect, which, sim, use_poll)
+    c, ctxm = make_reader(pexpect, which, sim, use_poll, encoding)
     out = []
     c._verif_timeout_changed = None
     c._verif_waits = []
